@@ -6,3 +6,5 @@ GROUPS = [H('join'), H('join', True), H('tryjoin'), H('detach'), H('mark_complet
 ASSUMPTIONS = ['fiber_manager_set_and_wait / clear_or_wait / scheduler by the C01 contracts (park publishes the value only after the context is saved; clear_or_wait returns the parked party)',
                'after my own exchange on detach_state the other parties follow the protocol (they do not exchange again in a way that concerns me); the racy overwrites of DETACHED by a concurrent exchange are not modelled',
                'twin: no fiber_detach while a joiner is parked']
+# obligation groups of other properties' specifications that this property also rests on (its anchors name those files); see DESIGN.md 11.2
+IMPORTS = [dict(prop='C01', groups=['set_and_wait', 'clear_or_wait', 'maintenance', 'maintenance_migrating_unlock', 'completion'])]
